@@ -147,6 +147,9 @@ add(["C08", "C06", "C07"], "c08_text_str_le5", "candid", "de_prim",
     "symbolic length 0..=5 bytes x 17 wire prims x symbolic quotas", TEXT_WHAT + " (&str, borrowed)", est_s=120)
 add(["C08", "C06", "C07"], "c08_text_string_le4", "candid", "de_prim",
     "symbolic length 0..=4 bytes x 17 wire prims x symbolic quotas", TEXT_WHAT + " (String, owned)", est_s=120)
+add(["C08", "C06"], "c08_text_str_eq12", "candid", "de_prim",
+    "all 12-byte buffers (length prefixes of up to 10 LEB128 bytes: huge, padded, > 2^64) x 17 wire prims x symbolic quotas",
+    TEXT_WHAT + " (&str; hostile length prefixes)", est_s=300, cap_s=2400)
 add(["C08", "C06", "C07"], "c08_unit", "candid", "de_prim", "0..=2 bytes x 17 wire prims x symbolic quotas",
     "() target: Ok => wire null, nothing consumed, cost >= 1 (zero-sized values are not free)", est_s=40)
 
@@ -210,7 +213,9 @@ RT = [("bool", "all bool"), ("u8", "all u8"), ("u16", "all u16"), ("u32", "all u
       ("vec_bool_2", "all Vec<bool> of 2 elements"), ("vec_f32_1", "all Vec<f32> of 1 element"),
       ("vec_empty_u32", "empty Vec<u32>"), ("vec_opt_u8_2", "all Vec<Option<u8>> of 2 elements (element-wise path)"),
       ("vec_string_1", "Vec<String> of one 2-byte string")]
-RT_QUICK = {"bool", "u16", "i64", "f64", "string2", "opt_u8", "tuple_u8_i32", "vec_u16_2", "vec_bool_2", "vec_opt_u8_2"}
+RT += [("vec_box_u64_1", "all Vec<Box<u64>> of 1 element (wrapper element type)"),
+       ("vec_box_u32_2", "all Vec<Box<u32>> of 2 elements (wrapper element type)")]
+RT_QUICK = {"vec_box_u64_1", "bool", "u16", "i64", "f64", "string2", "opt_u8", "tuple_u8_i32", "vec_u16_2", "vec_bool_2", "vec_opt_u8_2"}
 for n, d in RT:
     add(["C01", "C03"], f"c01_rt_{n}", "candid", "de_rt", d, RT_WHAT, quick=n in RT_QUICK, est_s=90, cbmc_args=MEMCMP_)
 
@@ -232,6 +237,11 @@ for under, tag in ((False, "w"), (True, "wo")):
             f"chosen for that wire type; symbolic decoding+skipping quotas and error verbosity", OPT_WHAT,
             quick=n in QUICK_OPT, est_s=200 if p in ("text", "nat", "int") else 60, cbmc_args=MEMCMP,
             stubs=["num_bigint::BigUint::from_radix_le"] if bn else [])
+add(["C08", "C06", "C07"], "c08_opt_u8_wo_blob_eq12", "candid", "de_opt",
+    "expected opt nat8, wire opt (vec nat8); all 12-byte buffers (hostile blob length prefixes); symbolic quotas",
+    "skipped blob below an option (deserialize_any -> deserialize_blob): None with exact consumption iff the blob fits the input, "
+    "Err otherwise; never Some; no panic (length arithmetic / allocation size) for any length prefix", est_s=300, cap_s=2400,
+    cbmc_args=MEMCMP, quick=False)
 for n, d in (("c08_opt_u8_wo_text_n2", "expected opt nat8, wire opt text, 2 value bytes (truncated text below opt)"),
              ("c08_opt_bool_wo_bool", "expected opt bool, wire opt bool, 3 bytes (0x02 payload below opt is an error)"),
              ("c08_opt_bool_wo_nat8", "expected opt bool, wire opt nat8, 3 bytes"),
